@@ -111,6 +111,7 @@ func cmdCheck(args []string) int {
 		}
 	}
 	ms := *timeout
+	retryOff = ms != 0
 	if ms == 0 {
 		ms = 20000
 		if *tier == "thorough" {
